@@ -158,6 +158,7 @@ func (h *history) maintenance(name string) {
 	defer h.mu.Unlock()
 	switch spec.effect {
 	case "all-disabled":
+		h.reenabled = nil
 		h.disabledK = map[string]bool{}
 		for k := range h.fixed {
 			h.disabledK[k] = true
@@ -166,6 +167,7 @@ func (h *history) maintenance(name string) {
 			h.disabledK[k] = true
 		}
 	case "all-enabled":
+		h.reenabled = h.disabledK
 		h.disabledK = nil
 	case "all-removed":
 		for _, l := range h.pub {
@@ -175,6 +177,7 @@ func (h *history) maintenance(name string) {
 		h.fixed = map[string]tval{}
 		h.live = map[string]tval{}
 		h.disabledK = nil
+		h.reenabled = nil
 	case "disabled-removed":
 		if len(h.disabledK) == 0 {
 			break
@@ -195,6 +198,7 @@ func (h *history) maintenance(name string) {
 			h.pub[k] = keep
 		}
 		h.disabledK = nil
+		h.reenabled = nil
 		r.Count("tokens_survived_partial_removal", int64(len(h.live)))
 	}
 }
